@@ -94,8 +94,13 @@ struct Ctx<'a> {
 /// the Unicode presentation of an IDN rule (nor the parent of a wildcard one). Such labels can only
 /// fall under wildcard rules or the implicit "*" rule, so the reference comparison applies.
 fn mixed_safe(ctx: &Ctx, q: &str) -> bool {
-    if q.is_ascii() || RefPsl::has_empty_label(q) {
+    if RefPsl::has_empty_label(q) {
         return false;
+    }
+    if q.is_ascii() {
+        // ASCII names spelled with capitals: the list algorithm compares labels as they are, so a
+        // capitalised label equals no rule label (it can only fall under a wildcard or the implicit "*")
+        return q.bytes().any(|b| b.is_ascii_uppercase()) && q.bytes().all(|b| b.is_ascii_alphanumeric() || b == b'-' || b == b'.');
     }
     let ok_char = |c: char| c.is_ascii_lowercase() || c.is_ascii_digit() || c == '-' || c == '.' || (!c.is_ascii() && c.is_alphabetic() && c.to_lowercase().eq(std::iter::once(c)));
     if !q.chars().all(ok_char) {
@@ -321,6 +326,23 @@ pub fn run(args: &Args) -> Report {
         if r.line % 8 == 0 {
             for pre in ["b\u{fc}cher", "www.b\u{fc}cher", "\u{65e5}\u{672c}\u{8a9e}.c", "\u{e9}"] {
                 check(&mut ctx, &format!("{pre}.{}", r.ascii), false, "unicode-labels-left-of-rule");
+            }
+        }
+        // capitalised spellings of the rule's labels (every 4th rule, every exception and wildcard rule)
+        if r.line % 4 == 0 || r.kind != RuleKind::Normal {
+            let cap_first = {
+                let mut c = r.ascii.chars();
+                c.next().map(|f| f.to_ascii_uppercase().to_string() + c.as_str()).unwrap_or_default()
+            };
+            let cap_second = match r.ascii.split_once('.') {
+                Some((a, b)) => {
+                    let mut c = b.chars();
+                    format!("{a}.{}", c.next().map(|f| f.to_ascii_uppercase().to_string() + c.as_str()).unwrap_or_default())
+                }
+                None => r.ascii.to_ascii_uppercase(),
+            };
+            for q in [cap_first.clone(), format!("foo.{cap_first}"), format!("a.foo.{cap_second}"), format!("WWW.{}", r.ascii)] {
+                check(&mut ctx, &q, false, "capitalised-labels");
             }
         }
         // upper-case presentation: structural only
